@@ -16,8 +16,8 @@ Open Scope N_scope.
    effect, every other header field and the payload as given; the bindings are
    unchanged, the error count is the number of failing writers, and the
    caller's packet is the one passed in. *)
-Theorem c29_write_exact : forall s p,
-  step s (Write p) = Ok (s, OWrite (N.of_nat (length (filter b_fail s))) (map (rewritten p) s) p).
+Theorem c29_write_exact : forall unm s p,
+  step unm s (Write p) = Ok (s, OWrite (N.of_nat (length (filter b_fail s))) (map (rewritten p) s) p).
 Proof. exact step_write. Qed.
 Print Assumptions c29_write_exact.
 
@@ -25,9 +25,9 @@ Print Assumptions c29_write_exact.
    reaches exactly the currently bound senders of the specification - each one
    once (their ids are pairwise distinct), rewritten with its own SSRC and
    payload type - and the caller's packet comes back unchanged *)
-Theorem c29_fanout : forall ops p, wf ops ->
+Theorem c29_fanout : forall unm ops p, wf ops ->
   exists s obs ds errs,
-    run [] (ops ++ [Write p]) = Ok (s, obs ++ [OWrite errs ds p]) /\
+    run unm [] (ops ++ [Write p]) = Ok (s, obs ++ [OWrite errs ds p]) /\
     Permutation ds (map (rewritten p) (spec_run ops)) /\
     NoDup (map b_id (spec_run ops)).
 Proof. exact fanout. Qed.
@@ -36,17 +36,17 @@ Print Assumptions c29_fanout.
 (* in ANY state Unbind removes exactly one binding carrying the id and keeps
    every other binding (swap-delete, as a multiset), or - when no binding
    carries the id - fails with ErrUnbindFailed and changes nothing *)
-Theorem c29_unbind_one : forall s id,
-  (exists x s', step s (Unbind id) = Ok (s', OUnbind (Ok tt)) /\ In x s /\ b_id x = id /\
+Theorem c29_unbind_one : forall unm s id,
+  (exists x s', step unm s (Unbind id) = Ok (s', OUnbind (Ok tt)) /\ In x s /\ b_id x = id /\
                 Permutation s (x :: s'))
-  \/ (step s (Unbind id) = Ok (s, OUnbind (Err "unbind-failed")) /\ forall y, In y s -> b_id y <> id).
+  \/ (step unm s (Unbind id) = Ok (s, OUnbind (Err "unbind-failed")) /\ forall y, In y s -> b_id y <> id).
 Proof. exact step_unbind. Qed.
 Print Assumptions c29_unbind_one.
 
 (* after Unbind id, for as long as id is not bound again, no binding carries id:
    by c29_write_exact no later write reaches the removed binding *)
-Theorem c29_unbind : forall ops id ops', wf (ops ++ Unbind id :: ops') -> no_bind id ops' ->
-  exists s obs, run [] (ops ++ Unbind id :: ops') = Ok (s, obs) /\
+Theorem c29_unbind : forall unm ops id ops', wf (ops ++ Unbind id :: ops') -> no_bind id ops' ->
+  exists s obs, run unm [] (ops ++ Unbind id :: ops') = Ok (s, obs) /\
                 forall b, In b s -> b_id b <> id.
 Proof. exact unbind_final. Qed.
 Print Assumptions c29_unbind.
@@ -55,26 +55,54 @@ Print Assumptions c29_unbind.
    packet that was passed in (the model mutates only the pooled copy; aliasing
    of the shared CSRC/extension/payload slices is outside the model and is
    checked on the real code by a deep comparison) *)
-Theorem c29_caller_unchanged : forall s p s' errs ds after,
-  step s (Write p) = Ok (s', OWrite errs ds after) -> after = p /\ s' = s.
+Theorem c29_caller_unchanged : forall unm s p s' errs ds after,
+  step unm s (Write p) = Ok (s', OWrite errs ds after) -> after = p /\ s' = s.
 Proof. exact caller_unchanged. Qed.
 Print Assumptions c29_caller_unchanged.
 
 (* refinement: the bindings slice is a permutation of the specification's set *)
-Theorem c29_refines_multiset : forall ops, wf ops ->
-  exists s obs, run [] ops = Ok (s, obs) /\ Permutation s (spec_run ops) /\ NoDup (map b_id s).
+Theorem c29_refines_multiset : forall unm ops, wf ops ->
+  exists s obs, run unm [] ops = Ok (s, obs) /\ Permutation s (spec_run ops) /\ NoDup (map b_id s).
 Proof. exact refines. Qed.
 Print Assumptions c29_refines_multiset.
 
 (* no history panics (the index arithmetic of the swap-delete stays in range) *)
-Theorem c29_no_panic : forall ops s, run s ops <> Panic.
+Theorem c29_no_panic : forall unm ops s, run unm s ops <> Panic.
 Proof. exact run_no_panic. Qed.
 Print Assumptions c29_no_panic.
 
-Example c29_history_nontrivial :
+(* Write(b []byte) = WriteRTP after rtp.Packet.Unmarshal.  [unm] is the
+   unmarshaller (outside the repo, arbitrary here).  In any state the bytes
+   either fail to parse - then no writer is called and nothing changes - or
+   parse to p, and then every binding gets exactly the delivery WriteRTP(p)
+   gives it. *)
+Theorem c29_write_bytes : forall unm s raw,
+  (exists p, unm raw = Some p /\
+     step unm s (WriteRaw raw) = Ok (s, OWriteRaw (Ok (N.of_nat (length (filter b_fail s)), map (rewritten p) s))))
+  \/ (unm raw = None /\ step unm s (WriteRaw raw) = Ok (s, OWriteRaw (Err "unmarshal"))).
+Proof. exact step_write_raw. Qed.
+Print Assumptions c29_write_bytes.
+
+(* Refinement over whole histories: given a marshaller that the unmarshaller
+   inverts on padding-free packets (premise [unm_marshal], pion/rtp's contract),
+   replacing every WriteRTP(p) of a history by Write(marshal p) yields the same
+   final bindings and, op by op, the same error counts and deliveries. *)
+Section WriteBytes.
+  Variable unm : list N -> option pkt.
+  Variable marshal : pkt -> list N.
+  Hypothesis unm_marshal : forall p, p_hpad p = 0 -> p_ppad p = 0 -> unm (marshal p) = Some p.
+
+  Theorem c29_write_bytes_refines : forall ops s s' obs, Forall pad_free ops ->
+    run unm s ops = Ok (s', obs) ->
+    run unm s (map (raw_of marshal) ops) = Ok (s', map raw_obs obs).
+  Proof. exact (run_raw_refines unm marshal unm_marshal). Qed.
+End WriteBytes.
+Print Assumptions c29_write_bytes_refines.
+
+Example c29_history_nontrivial : forall unm,
   let ops := [Bind 0 1000 (Some 96) 0 false; Bind 1 2000 (Some 97) 1 false; Bind 2 3000 (Some 98) 2 false;
               Unbind 0] in
   wf ops /\
-  option_map (map b_w) (match run [] ops with Ok (s, _) => Some s | _ => None end) = Some [2%nat; 1%nat] /\
+  option_map (map b_w) (match run unm [] ops with Ok (s, _) => Some s | _ => None end) = Some [2%nat; 1%nat] /\
   map b_w (spec_run ops) = [2%nat; 1%nat].
 Proof. exact ex_history. Qed.
